@@ -423,9 +423,17 @@ def replay_batch(obj):
 FLAG_ENV_OPS = ("load_model", "load_policy", "set_model", "set_adapter", "clear+load", "set_watcher", "build_role_links", "enable_auto_save", "enable_log")
 
 
-def _flag_env_run(kind, script):
+def _second_defs(text, kind2):
+    """the same model with a second request / policy / effect / matcher definition (selected through an enforce context);
+    the SECOND effect expression is `kind2`"""
+    return (text.replace("r = k\n", "r = k\nr2 = k\n").replace("p = k, tag, eft\n", "p = k, tag, eft\np2 = k, tag, eft\n")
+            .replace("[matchers]", "e2 = " + KINDS[kind2] + "\n[matchers]").replace("m = f(r.k, p.k)", "m = f(r.k, p.k)\nm2 = f(r2.k, p2.k)"))
+
+
+def _flag_env_run(kind, script, ctx2=False):
     """an enforcer built from a model FILE and a list adapter; script = environment calls between which the enforcer is
-    disabled / enabled; returns, per step, the decisions over a fixed request list"""
+    disabled / enabled; returns, per step, the decisions over a fixed request list. ctx2: the model has second definitions
+    (r2, p2, e2, m2 - the same rules under p2) and the decisions are asked through EnforceContext("r2", "p2", "e2", "m2")"""
     import os
     import shutil
     import tempfile
@@ -433,16 +441,23 @@ def _flag_env_run(kind, script):
     import policy_corr as pc
 
     casbin = common.use_repo()
+    def mtext(k, a, b):
+        # with second definitions the SECOND effect expression is the one under test, the first stays `ao`
+        return _second_defs(model_text("ao", a, b), k) if ctx2 else model_text(k, a, b)
     d = tempfile.mkdtemp(prefix="c01e_")
     try:
         mp = os.path.join(d, "model.conf")
-        open(mp, "w").write(model_text(kind, True, False))
+        open(mp, "w").write(mtext(kind, True, False))
         rules = [["k", "t", "deny"], ["x", "t", "allow"], ["k", "t", "allow"]]
-        ad = pc.make_adapter(casbin, [("p", "p", r) for r in rules])
+        ad = pc.make_adapter(casbin, [("p", "p", r) for r in rules] + ([("p", "p2", r) for r in rules] if ctx2 else []))
         e = casbin.Enforcer(mp, ad)
         e.add_function("f", synth_f)
         e.enable_auto_save(False)
         reqs = [["k"], ["x"], ["zz"]]
+        if ctx2:
+            from casbin.core_enforcer import EnforceContext  # noqa
+
+            reqs = [[EnforceContext("r2", "p2", "e2", "m2")] + r for r in reqs]
         outs = []
         for op in script:
             try:
@@ -452,13 +467,13 @@ def _flag_env_run(kind, script):
                     e.enable_enforce(True)
                 elif op.startswith("set_model:"):
                     # another model (a different policy-effect expression) takes the place of the first one
-                    open(mp, "w").write(model_text(op.split(":")[1], True, False))
+                    open(mp, "w").write(mtext(op.split(":")[1], True, False))
                     e.set_model(casbin.Enforcer.new_model(mp))
                     e.add_function("f", synth_f)
                     e.load_policy()
                 elif op.startswith("load_model:"):
                     # the model file has been rewritten with a different policy-effect expression and is reloaded
-                    open(mp, "w").write(model_text(op.split(":")[1], True, False))
+                    open(mp, "w").write(mtext(op.split(":")[1], True, False))
                     e.load_model()
                     e.add_function("f", synth_f)
                     e.load_policy()
@@ -473,7 +488,7 @@ def _flag_env_run(kind, script):
                     e.add_function("f", synth_f)
                     e.load_policy()
                 elif op == "set_adapter":
-                    e.set_adapter(pc.make_adapter(casbin, [("p", "p", r) for r in rules]))
+                    e.set_adapter(pc.make_adapter(casbin, [("p", "p", r) for r in rules] + ([("p", "p2", r) for r in rules] if ctx2 else [])))
                     e.load_policy()
                 elif op == "clear+load":
                     e.clear_policy()
@@ -529,6 +544,18 @@ def run_flag_env_stream(ctx, res, want):
             outs = _flag_env_run(kind, script)
             base = outs[0][1]
             disabled = False
+            if script in swaps[:2]:
+                # the same swap on the SECOND effect definition, decided through an enforce context (after a first decision)
+                outs2 = _flag_env_run(kind, script, ctx2=True)
+                res.evaluations += len(outs2)
+                res.count("stream:flag-env:second-definition", len(outs2))
+                want2 = [outs[0][1], bases[script[1].split(":")[1]]]
+                got2 = [o[1] for o in outs2]
+                if [o[0] for o in outs2] != ["ok", "ok"] or got2 != want2:
+                    res.violation({"signature": f"C01:flag-env:context:{script[1].split(':')[0]}", "stream": "flag-env", "ekind": kind, "script": script, "ctx2": True,
+                                   "what": f"second effect definition e2 = {kind}, decided through EnforceContext(r2, p2, e2, m2): after {script} the decisions are {got2}, the expressions in force give {want2}",
+                                   "expected": want2, "observed": got2})
+                    break
             for i, (op, (ret, decs)) in enumerate(zip(script, outs)):
                 if op == "disable":
                     disabled = True
@@ -548,6 +575,8 @@ def run_flag_env_stream(ctx, res, want):
 
 
 def replay_flag_env(obj):
+    if obj.get("ctx2"):
+        return [o[1] for o in _flag_env_run(obj.get("ekind") or obj["kind"], obj["script"], ctx2=True)] != obj["expected"]
     outs = _flag_env_run(obj.get("ekind") or obj["kind"], obj["script"])
     return outs[-1][0] != "ok" or outs[-1][1] != obj["expected"]
 
